@@ -9,7 +9,8 @@
 // Case kinds (field kind):
 //   compile  one data file under one codec configuration (v1 | v2 | cdb) and a list of settings
 //   buckets  the builder's own sort + createBuckets on a key array (hook rdb.BucketsForVerif)
-//   par0     batch compiler with BatchNumParallel = 0 in a child process under a timeout
+// Batch runs with BatchNumParallel <= 0 are made in a child process under a timeout
+// (that setting once blocked for ever).
 package main
 
 import (
@@ -84,20 +85,6 @@ type bucketCase struct {
 	Buckets [][2]int `json:"buckets"`
 }
 
-type par0Case struct {
-	Kind    string `json:"kind"`
-	Class   string `json:"class"`
-	File    []int  `json:"file"`
-	BS      int    `json:"bs"`
-	Par     int    `json:"par"`
-	Full    bool   `json:"full"` // the file yields at least bs records
-	Hang    bool   `json:"hang"`
-	Crashed bool   `json:"crashed"`
-	Ok      bool   `json:"ok"`
-	GoSame  bool   `json:"go_same"`
-	TimeoutS int   `json:"timeout_s"`
-}
-
 type setting struct {
 	mode    string
 	workers int
@@ -113,6 +100,11 @@ func cfgOf(name string) complib.Cfg {
 	}
 	return complib.Cfg{Serial: serial}
 }
+
+// A Builder allocates its 20M-entry value array (about 1 GB, rdb_builder.go
+// estimatedKeyCount); every garbage collection triggered by a concurrent batch
+// compilation scans it, so builder runs are made alone.
+var heavy sync.RWMutex
 
 var dirSeq struct {
 	sync.Mutex
@@ -142,9 +134,14 @@ func compileOne(scratch, in string, cfg complib.Cfg, s setting) (err error, d co
 	if e := os.MkdirAll(out, 0o755); e != nil {
 		return nil, nil, e
 	}
-	o := rdb.CompilationOptions{NumCPU: s.workers, UseV2KeySyntax: cfg.V2, UseBuilder: s.mode == "builder",
-		BatchNumParallel: s.par, BatchSize: s.bs}
-	_, err = rdb.CompileToSpecificRDBVersion(in, out, o)
+	if s.mode == "batches" && s.par <= 0 {
+		// BatchNumParallel <= 0 once blocked for ever: run it in a child process under a timeout
+		err = compileInChild(in, out, cfg, s)
+	} else {
+		o := rdb.CompilationOptions{NumCPU: s.workers, UseV2KeySyntax: cfg.V2, UseBuilder: s.mode == "builder",
+			BatchNumParallel: s.par, BatchSize: s.bs}
+		_, err = rdb.CompileToSpecificRDBVersion(in, out, o)
+	}
 	if err != nil {
 		return err, nil, nil
 	}
@@ -161,7 +158,7 @@ func settingsGrid(cfg complib.Cfg) []setting {
 		}
 		g = append(g, setting{"builder", w, 0, 0})
 		for _, bs := range []int{1, 7, 100000} {
-			for _, par := range []int{1, 4} {
+			for _, par := range []int{0, 1, 4} {
 				g = append(g, setting{"batches", w, bs, par})
 			}
 		}
@@ -169,26 +166,23 @@ func settingsGrid(cfg complib.Cfg) []setting {
 	return g
 }
 
-// pickSettings takes k settings of the grid, always one builder and one batch run.
+// pickSettings takes one builder run and k-1 distinct batch runs of the grid.
 func pickSettings(r *hlib.Rng, cfg complib.Cfg, k int) []setting {
 	g := settingsGrid(cfg)
 	if cfg.CDB || k >= len(g) {
 		return g
 	}
-	r.Shuffle(len(g), func(i, j int) { g[i], g[j] = g[j], g[i] })
-	var res []setting
-	hasB, hasBatch := false, false
+	var bl, ba []setting
 	for _, s := range g {
-		if len(res) < k-2 || (s.mode == "builder" && !hasB) || (s.mode == "batches" && !hasBatch) {
-			res = append(res, s)
-			hasB = hasB || s.mode == "builder"
-			hasBatch = hasBatch || s.mode == "batches"
-		}
-		if len(res) >= k && hasB && hasBatch {
-			break
+		if s.mode == "builder" {
+			bl = append(bl, s)
+		} else {
+			ba = append(ba, s)
 		}
 	}
-	return res
+	res := []setting{bl[r.Intn(len(bl))]}
+	r.Shuffle(len(ba), func(i, j int) { ba[i], ba[j] = ba[j], ba[i] })
+	return append(res, ba[:k-1]...)
 }
 
 // runCompileCase compiles file under every setting (in parallel, separate directories).
@@ -247,6 +241,13 @@ func runCompileCase(scratch string, class, cfgName string, file []byte, sets []s
 		wg.Add(1)
 		go func(i int, s setting) {
 			defer wg.Done()
+			if s.mode == "builder" {
+				heavy.Lock()
+				defer heavy.Unlock()
+			} else {
+				heavy.RLock()
+				defer heavy.RUnlock()
+			}
 			sem <- struct{}{}
 			defer func() { <-sem }()
 			r := runJ{Mode: s.mode, Workers: s.workers, BS: s.bs, Par: s.par}
@@ -395,62 +396,53 @@ func runBuckets(c *bucketCase) {
 	}
 }
 
-// ---------------------------------------------------------------- par0 probe (child process)
+// ---------------------------------------------------------------- child process for BatchNumParallel <= 0
+
+var childTimeout = 25 * time.Second
 
 func childMain(spec string) {
-	// child:<in>:<dir>:<bs>:<par>
+	// child:<in>:<dir>:<workers>:<bs>:<par>:<v2>
 	f := strings.Split(spec, ":")
-	var bs, par int
-	fmt.Sscan(f[3], &bs)
-	fmt.Sscan(f[4], &par)
-	_, err := rdb.CompileToSpecificRDBVersion(f[1], f[2], rdb.CompilationOptions{NumCPU: 1, BatchSize: bs, BatchNumParallel: par})
+	var w, bs, par, v2 int
+	fmt.Sscan(f[3], &w)
+	fmt.Sscan(f[4], &bs)
+	fmt.Sscan(f[5], &par)
+	fmt.Sscan(f[6], &v2)
+	log.SetOutput(io.Discard)
+	_, err := rdb.CompileToSpecificRDBVersion(f[1], f[2], rdb.CompilationOptions{NumCPU: w, BatchSize: bs, BatchNumParallel: par, UseV2KeySyntax: v2 == 1})
 	if err != nil {
-		fmt.Println("ERR", err)
-		os.Exit(0)
+		fmt.Println("CHILD-ERR", err)
+		return
 	}
-	fmt.Println("DONE")
+	fmt.Println("CHILD-DONE")
 }
 
-func runPar0(scratch string, c *par0Case) error {
-	file := hlib.Unints(c.File)
-	in := freshDir(scratch) + ".data"
-	if err := complib.WriteFile(in, file, serial); err != nil {
-		return err
-	}
-	defer os.Remove(in)
-	dir := freshDir(scratch)
-	if err := os.MkdirAll(dir, 0o755); err != nil {
-		return err
-	}
-	defer os.RemoveAll(dir)
-	ref, err := complib.Refer(cfgOf("v1"), complib.EffectiveLines(file))
-	if err != nil {
-		return err
-	}
-	c.Full = len(ref.Records()) >= c.BS
+func compileInChild(in, out string, cfg complib.Cfg, s setting) error {
 	exe, err := os.Executable()
 	if err != nil {
 		return err
 	}
-	ctx, cancel := context.WithTimeout(context.Background(), time.Duration(c.TimeoutS)*time.Second)
+	ctx, cancel := context.WithTimeout(context.Background(), childTimeout)
 	defer cancel()
-	cmd := exec.CommandContext(ctx, exe, "-extra", fmt.Sprintf("child:%s:%s:%d:%d", in, dir, c.BS, c.Par))
-	out, rerr := cmd.CombinedOutput()
-	c.Hang, c.Crashed, c.Ok, c.GoSame = false, false, false, false
+	v2 := 0
+	if cfg.V2 {
+		v2 = 1
+	}
+	cmd := exec.CommandContext(ctx, exe, "-extra", fmt.Sprintf("child:%s:%s:%d:%d:%d:%d", in, out, s.workers, s.bs, s.par, v2))
+	o, rerr := cmd.CombinedOutput()
 	switch {
 	case ctx.Err() != nil:
-		c.Hang = true
-	case rerr != nil:
-		c.Crashed = true
-	case strings.Contains(string(out), "DONE"):
-		c.Ok = true
-		d, derr := complib.DumpRDB(dir)
-		if derr != nil {
-			return derr
-		}
-		c.GoSame, _ = complib.SameMultiset(d, complib.FromRecords(ref.Records()))
+		return fmt.Errorf("HANG: no result within %v", childTimeout)
+	case strings.Contains(string(o), "CHILD-DONE"):
+		return nil
+	case strings.Contains(string(o), "CHILD-ERR"):
+		return fmt.Errorf("%s", strings.TrimSpace(string(o)))
 	}
-	return nil
+	tail := string(o)
+	if len(tail) > 300 {
+		tail = tail[:300]
+	}
+	return fmt.Errorf("CRASH: %v %s", rerr, tail)
 }
 
 // ---------------------------------------------------------------- main
@@ -490,15 +482,6 @@ func replay(a *hlib.Args, e *hlib.Emitter, ncpu int) error {
 			}
 			runBuckets(&c)
 			e.Emit(&c)
-		case "par0":
-			var c par0Case
-			if err := json.Unmarshal(raw, &c); err != nil {
-				return err
-			}
-			if err := runPar0(a.Scratch, &c); err != nil {
-				return err
-			}
-			e.Emit(&c)
 		default:
 			return fmt.Errorf("unknown case kind %q", kind)
 		}
@@ -526,18 +509,6 @@ func run(a *hlib.Args, e *hlib.Emitter) error {
 	}
 	thorough := a.Tier == "thorough"
 
-	// the par0 probe runs beside everything else (it normally sits in its timeout)
-	var pwg sync.WaitGroup
-	var pcase *par0Case
-	var perr error
-	if a.N > 0 {
-		r := hlib.NewRng(a.Seed, 7)
-		g := complib.NewGen(r, 2, 3)
-		pcase = &par0Case{Kind: "par0", Class: "par0", File: hlib.Ints(complib.Join(g.File(12, 0, false, false), true)), BS: 7, Par: 0, TimeoutS: 6}
-		pwg.Add(1)
-		go func() { defer pwg.Done(); perr = runPar0(a.Scratch, pcase) }()
-	}
-
 	// bucket arithmetic
 	rb := hlib.NewRng(a.Seed, 2)
 	for i := 0; i < 25*a.N; i++ {
@@ -548,7 +519,7 @@ func run(a *hlib.Args, e *hlib.Emitter) error {
 
 	// small files, evaluated by the Coq model as well
 	r := hlib.NewRng(a.Seed, 1)
-	perCase := 7
+	perCase := 5
 	if thorough {
 		perCase = 100
 	}
@@ -634,13 +605,6 @@ func run(a *hlib.Args, e *hlib.Emitter) error {
 		}
 	}
 
-	pwg.Wait()
-	if perr != nil {
-		return perr
-	}
-	if pcase != nil {
-		e.Emit(pcase)
-	}
 	return nil
 }
 
